@@ -25,24 +25,50 @@ class Q(object):
         if isinstance(o, Q):
             if o.d is self.d:
                 return o.n
-            if isinstance(o.d, int) and isinstance(self.d, int) and type(o.d) is int and type(self.d) is int \
-                    and o.d == self.d:
+            if type(o.d) is int and type(self.d) is int and o.d == self.d:
                 return o.n
             raise AssertionError('Q numbers of one run share their denominator')
         return o * self.d
 
-    def __truediv__(self, o):       # only ever formatted into log lines
+    def _pair(self, o):
+        """(lhs, rhs) integers with  self ? o  <=>  lhs ? rhs ; denominators are positive.  Linear as long as at most
+        one of the two denominators is symbolic and it is shared, or the other one is a concrete int."""
+        if isinstance(o, Q):
+            if o.d is self.d or (type(o.d) is int and type(self.d) is int and o.d == self.d):
+                return self.n, o.n
+            return self.n * o.d, o.n * self.d
+        return self.n, o * self.d
+
+    def __truediv__(self, o):
+        # division by a concrete integral constant (e.g. bytes -> MB) stays exact; anything else is only ever
+        # formatted into log lines
+        if type(o) in (int, float) and o > 0 and float(o).is_integer() and type(self.d) is int:
+            return Q(self.n, self.d * int(o))
         return Opaque()
 
-    __rtruediv__ = __truediv__
-    __mul__ = __rmul__ = __truediv__
+    def __rtruediv__(self, o):
+        return Opaque()
 
-    def __le__(self, o): return self.n <= self._o(o)
-    def __lt__(self, o): return self.n < self._o(o)
-    def __ge__(self, o): return self.n >= self._o(o)
-    def __gt__(self, o): return self.n > self._o(o)
-    def __eq__(self, o): return self.n == self._o(o)
-    def __ne__(self, o): return self.n != self._o(o)
+    __mul__ = __rmul__ = __rtruediv__
+
+    def __le__(self, o):
+        a, b = self._pair(o)
+        return a <= b
+    def __lt__(self, o):
+        a, b = self._pair(o)
+        return a < b
+    def __ge__(self, o):
+        a, b = self._pair(o)
+        return a >= b
+    def __gt__(self, o):
+        a, b = self._pair(o)
+        return a > b
+    def __eq__(self, o):
+        a, b = self._pair(o)
+        return a == b
+    def __ne__(self, o):
+        a, b = self._pair(o)
+        return a != b
     def __hash__(self): return 0
     def __sub__(self, o): return Q(self.n - self._o(o), self.d)
     def __add__(self, o): return Q(self.n + self._o(o), self.d)
